@@ -95,6 +95,11 @@ partial def run (st : St) : List String → St
             | .error _ => false
           emit st (encBool m ++ " " ++ encBool r)
     | _ => { st with bad := true }
+  | "delpart" :: idx :: rest =>
+    -- Part.Delete() on the idx-th part of the message
+    match decNat idx with
+    | some i => run { st with s := { st.s with parts := st.s.parts.mapIdx (fun j p => if j == i then { p with deleted := true } else p) } } rest
+    | none => { st with bad := true }
   | "nest" :: rest =>
     run (emit st (encBool (hasMixed st.s) ++ " " ++ encBool (hasRelated st.s) ++ " " ++ encBool (hasAlt st.s))) rest
   | "signed" :: rest =>
